@@ -158,7 +158,7 @@ class Pipeline(Redis):
         if not stack: return []
         srv = self.connection_pool.server
         if srv.down:
-            raise ConnectionError("server is down")
+            raise (getattr(srv, "down_exc", None) or ConnectionError)("server is down")
         out = []
         srv.begin()            # MULTI ... EXEC: one cycle of the server
         try:
